@@ -30,7 +30,7 @@ var obsOpt = &obs.Options{}
 // value as a PARAMETER and only read it: wrapping constructors, the blinding
 // and encryption entry points, verification with a caller-supplied key. What
 // they return is observed; results that depend on fresh entropy are reduced
-// to success and length.
+// to success.
 func Consumers(v any) string {
 	var sb strings.Builder
 	date := time.Unix(4102444800, 0).UTC()
@@ -74,8 +74,10 @@ func Consumers(v any) string {
 	case *lease_set2.LeaseSet2:
 		var cookie [32]byte
 		pub := refmodel.Expand(78, "conc-x25519", 32)
-		ct, err := encrypted_leaseset.EncryptInnerLeaseSet2(x, cookie, pub)
-		fmt.Fprintf(&sb, "encrypt:%v:%d;", err == nil, len(ct))
+		// (the ciphertext depends on fresh entropy, possibly down to its length:
+		// only success is a function of the value)
+		_, err := encrypted_leaseset.EncryptInnerLeaseSet2(x, cookie, pub)
+		fmt.Fprintf(&sb, "encrypt:%v;", err == nil)
 		d := x.Destination()
 		if d.KeysAndCert != nil {
 			blind(d)
